@@ -10,12 +10,13 @@
    EmptyMarker only for the empty one, and otherwise None or an atom that evaluates true
    exactly on the final versions s accepts - including the python_full_version zero
    padding (C11_padding: padding the release segment never changes a comparison).
-   Outside: `in` / `not in` lists (string containment, known finding pv-in-substring) and
-   the exclusion tilde_safe (known finding tilde-max-post), both decided by the oracle.
+   C11_in_view / C11_in_view_pv: the specifier view of `in` / `not in` lists (their EVALUATION is string containment,
+   known finding pv-in-substring, decided by the oracle).
+   Outside: the exclusion tilde_safe (known finding tilde-max-post), decided by the oracle.
    C11_link / C11_linked_ops: the bridge model as a merging oracle of the marker theorems (Proofs/MergeLink.v). *)
 From Coq Require Import List Bool NArith.
 From Verif Require Import PyRes Order Cuts Str SpecTypes GenSpec SpecSem SpecExpr Pep440 Corr SpecParse
-  ParseSound RenderSound ParseReach Bridge BridgeSound MergeLink.
+  ParseSound RenderSound ParseReach Bridge BridgeSound InViewSound MergeLink.
 From Verif Require Marker MarkerSingle MarkerSound.
 Import ListNotations.
 Import X.
@@ -142,5 +143,27 @@ Example C11_pv_runs :
   /\ vmerge_pv true (mkClause OpGt (relver 0 [3; 7]%N)) (mkClause OpGe (relver 0 [3; 8; 5]%N)) = Ret (VMAtom (mkClause OpGe (relver 0 [3; 8; 5]%N))).
 Proof. split; [split; [reflexivity | cbn; auto] | vm_compute; reflexivity]. Qed.
 
-Definition C11_all := (C11_view, C11_back, C11_padding, C11_merge, C11_normalize, C11_merge_pv, C11_reversed, C11_link, C11_linked_ops, C11_link_pv, C11_linked_normaliser, link_runs, env0_good, link2_runs, env0_good_pv).
+(* the specifier view of `name in "<list>"` / `name not in "<list>"` (session 4): it admits exactly the final versions that satisfy
+   one of (in) / every one of (not in) the member clauses, for any variable, any number of members, members of any length ... *)
+Theorem C11_in_view name neg items : items <> [] -> Forall (fun r => r <> []) items ->
+  exists s, in_view name neg items = Ret s /\ canon s /\
+    forall v, final v -> mem (vcut v) s = if neg then forallb (fun r => clause_sem (in_item name true r) v) items
+                                          else existsb (fun r => clause_sem (in_item name false r) v) items.
+Proof. exact (in_view_sound name neg items). Qed.
+
+(* ... and for python_version with X.Y members: exactly the interpreters X.Y[.Z...] whose X.Y is (in) / is not (not in) a member of the
+   list -- on python_version values and, which is what merging with python_full_version atoms relies on, on full versions alike.
+   (Evaluation of such an atom is string containment, as in PEP 508 / packaging: recorded finding pv-in-substring.) *)
+Theorem C11_in_view_pv neg items : items <> [] -> Forall (fun r => List.length r = 2%nat) items ->
+  exists s, in_view PV neg items = Ret s /\ canon s /\
+    forall x y rest, mem (vcut (relver 0 (x :: y :: rest))) s = xorb neg (existsb (list_N_eqb [x; y]) items).
+Proof. exact (in_view_pv neg items). Qed.
+
+(* non-vacuity: python_version in "3.6, 3.10" is viewed as [3.6, 3.7) || [3.10, 3.11); it admits 3.10.4 and rejects 3.1 and 3.7.0 *)
+Example C11_in_view_runs :
+  exists s, in_view PV false [[3; 6]; [3; 10]]%N = Ret s
+    /\ mem (vcut (relver 0 [3; 10; 4]%N)) s = true /\ mem (vcut (relver 0 [3; 1]%N)) s = false /\ mem (vcut (relver 0 [3; 7; 0]%N)) s = false.
+Proof. eexists. split; [vm_compute; reflexivity|]. repeat split; vm_compute; reflexivity. Qed.
+
+Definition C11_all := (C11_in_view, C11_in_view_pv, C11_in_view_runs, C11_view, C11_back, C11_padding, C11_merge, C11_normalize, C11_merge_pv, C11_reversed, C11_link, C11_linked_ops, C11_link_pv, C11_linked_normaliser, link_runs, env0_good, link2_runs, env0_good_pv).
 Redirect "C11.assumptions" Print Assumptions C11_all.
